@@ -51,6 +51,8 @@ const (
 	// after it has written part of the value; only drawn when the leaves use
 	// such an encoder. Nothing of the value appears, its "<key>Error" does.
 	c7ReflFail
+	// c7Skip: a field that adds nothing (zap.Skip(), zap.Error(nil))
+	c7Skip
 )
 
 // c7poison is the value the streaming reflected encoder fails on.
@@ -205,8 +207,9 @@ type c7world struct {
 	leaves []*c7leaf
 	base   []c7field // fields added by a lazy-with wrapper around the whole stack
 	// streamRefl: the leaves' encoders use a streaming reflected encoder
-	streamRefl bool
-	scratch    map[int][]zap.Field // per task: the field slice it reuses for derivations
+	streamRefl  bool
+	scratch     map[int][]zap.Field // per task: the field slice it reuses for derivations
+	scratchWant map[int][]zap.Field // what the task put into it for the derivation in progress
 }
 
 type c7op struct {
@@ -252,6 +255,12 @@ func (w *c7world) zapFields(fs []c7field) []zap.Field {
 			out = append(out, zap.Object(f.key, c7failing{f.ival}))
 		case c7ReflFail:
 			out = append(out, zap.Reflect(f.key, c7poison{f.ival}))
+		case c7Skip:
+			if f.ival%2 == 0 {
+				out = append(out, zap.Skip())
+			} else {
+				out = append(out, zap.Error(nil))
+			}
 		}
 	}
 	return out
@@ -267,11 +276,28 @@ func (w *c7world) scratchFields(task int, fs []c7field) []zap.Field {
 	}
 	out := append(w.scratch[task][:0], w.zapFields(fs)...)
 	w.scratch[task] = out
+	if w.scratchWant == nil {
+		w.scratchWant = map[int][]zap.Field{}
+	}
+	w.scratchWant[task] = append([]zap.Field(nil), out...)
 	return out
+}
+
+func c7keys(fs []zap.Field) []string {
+	var ks []string
+	for _, f := range fs {
+		ks = append(ks, fmt.Sprintf("%s/%d", f.Key, f.Type))
+	}
+	return ks
 }
 
 func (w *c7world) poisonScratch(task int) {
 	sc := w.scratch[task]
+	// first: the derivation must have left the caller's slice as it was (the
+	// next logger derived from the same slice would otherwise carry other fields)
+	if want := w.scratchWant[task]; !reflect.DeepEqual(append([]zap.Field(nil), sc...), want) {
+		w.c.Fail("C07: a derivation changed the field slice of its caller", "the slice spread into With/Fields held %d fields %v before the call and holds %v after it", len(want), c7keys(want), c7keys(sc))
+	}
 	for i := range sc[:cap(sc)] {
 		sc[:cap(sc)][i] = zap.String("poisoned-scratch-slot", "the caller reused its field slice")
 	}
@@ -400,7 +426,7 @@ func (w *c7world) genFields(g *zsim.Stream, id int, allowMut bool, slogOnly bool
 	var out []c7field
 	for j := 0; j < n; j++ {
 		f := c7field{key: fmt.Sprintf("f%d_%d", id, j), ival: g.Draw(50)}
-		wts := []int{4, 3, 1, 2, 0, 2, 1, 2, 1, 0}
+		wts := []int{4, 3, 1, 2, 0, 2, 1, 2, 1, 0, 1}
 		if w.streamRefl {
 			wts[c7ReflFail], wts[c7Refl] = 2, 4
 		}
@@ -408,7 +434,7 @@ func (w *c7world) genFields(g *zsim.Stream, id int, allowMut bool, slogOnly bool
 			wts[c7Mut] = 3
 		}
 		if slogOnly {
-			wts = []int{4, 3, 0, 0, 0, 0, 0, 0, 0, 0}
+			wts = []int{4, 3, 0, 0, 0, 0, 0, 0, 0, 0, 0}
 		}
 		f.kind = g.Weighted(wts...)
 		if f.kind == c7Mut {
